@@ -4,17 +4,16 @@ import "strings"
 
 func equalFold(a, b string) bool { return strings.EqualFold(a, b) }
 
-func spdxFlow(c *Ctx, prop string)  {}
+func spdxFlow(c *Ctx, prop string) {}
 
 func selfTest(c *Ctx, repo, verif string, extra map[string]any) {}
 
 func cdxFlow(c *Ctx)                      {}
 func cdxTreeAssembly(c *Ctx, prop string) {}
 
-func unionRules(c *Ctx)    {}
-func diffHelpers(c *Ctx)   {}
+func diffHelpers(c *Ctx) {}
 
-func resultDiscipline(c *Ctx, fns []string)          {}
-func wellFounded(c *Ctx, entries []string)           {}
-func geometricAccumulation(c *Ctx, ds []*declInfo)   {}
-func serializerState(c *Ctx)                         {}
+func resultDiscipline(c *Ctx, fns []string)        {}
+func wellFounded(c *Ctx, entries []string)         {}
+func geometricAccumulation(c *Ctx, ds []*declInfo) {}
+func serializerState(c *Ctx)                       {}
